@@ -97,5 +97,9 @@ def _run(ctx, chk, prog, tag):
                    detail=("writes to the inspected item: " + chain) if w else "", path=pathl,
                    nontrivial=bool(eff.summ[f.name]["callees"]) or w)
     chk.floor("C18.readonly", "const-item subjects", nsub, 40)
+    chk.rule("C18.declared-effects", "a function whose prototype promises `pure` / `const` to the client's compiler neither stores outside "
+                                     "its frame nor allocates, releases or calls back")
+    import rules as _rde
+    _rde.check_declared_effects(chk, "C18.declared-effects", prog, eff)
     chk.count("functions", len(prog.lib_funcs()))
     chk.exhaustive = True
